@@ -2,7 +2,8 @@
    on the logical trees the Go harness built through the public constructors, and compares with
    what the real code did.
 
-   Case line:  T <tree> | <err> <enclen> <bytes> <dec> <equal> | <decoded tree>
+   Case line:  T <tree> | <err> <enclen> <bytes> <dec> <equal> <dirty> | <decoded tree>
+   (dirty = 1 iff AppendTo over destinations with non-zero spare capacity gave prefix ++ ToBytes)
    Tree syntax (prefix, space separated): L<n> kids.. | B:<hex> A:<hex> J:<hex> W<lsh>:<hex>
    O:<0/1..> I<w>:<v,..> U<w>:<v,..> F<w>:<bits,..> E ; "<head>#<seed>,<count>" = generated leaf. *)
 
@@ -162,8 +163,9 @@ let check _ln line =
         | _ ->
           (* a tree with decoded children: bytes, length, round trip through the mixed model *)
           (match split_ws mid with
-           | [err; enclen; bytes; dec; equal_] ->
-             if err = "1" then Some "impl: constructor error on a tree with decoded children"
+           | err :: enclen :: bytes :: dec :: equal_ :: dirty when List.length dirty <= 1 ->
+             if dirty = ["0"] then Some "AppendTo over a destination with non-zero spare capacity: impl differs; model: dst ++ encode x (C01_append)"
+             else if err = "1" then Some "impl: constructor error on a tree with decoded children"
              else if not (wf_c cx) then Some "model: tree with decoded children is not well-formed"
              else begin
                let enc = encode_c cx in
@@ -183,8 +185,9 @@ let check _ln line =
          let x = erase cx in
          let model_err = not (ctor_ok x) in
          match split_ws mid with
-         | [err; enclen; bytes; dec; equal_] ->
-           if err = "1" then (if model_err then None else Some "impl: constructor error; model: error-free item")
+         | err :: enclen :: bytes :: dec :: equal_ :: dirty when List.length dirty <= 1 ->
+           if dirty = ["0"] then Some "AppendTo over a destination with non-zero spare capacity: impl differs; model: dst ++ encode x (C01_append)"
+           else if err = "1" then (if model_err then None else Some "impl: constructor error; model: error-free item")
            else if model_err then Some "impl: error-free; model: constructor must refuse (size limit)"
            else begin
              let enc = encode x in
